@@ -17,6 +17,20 @@ let rec nat_of_int (i : int) : nat = if i <= 0 then O else S (nat_of_int (i - 1)
 
 let num s = n_of_int (int_of_string s)
 let pn x = string_of_int (int_of_n x)
+(* decimal numbers of any size (Durations in nanoseconds do not fit an OCaml int) *)
+let num_big (s : string) : n =
+  let ten = n_of_int 10 in
+  let acc = ref N0 in
+  String.iter (fun c -> match c with
+      | '0'..'9' -> acc := N.add (N.mul !acc ten) (n_of_int (Char.code c - 48))
+      | _ -> failwith "bad number") s;
+  !acc
+let pn_big (x : n) : string =
+  let ten = n_of_int 10 in
+  let rec go x acc = match x with
+    | N0 -> acc
+    | _ -> let (q, r) = N.div_eucl x ten in go q (string_of_int (int_of_n r) ^ acc) in
+  match x with N0 -> "0" | _ -> go x ""
 
 (* ---------- byte strings ---------- *)
 let hexchar i = "0123456789ABCDEF".[i]
@@ -235,6 +249,8 @@ let handle_io (toks : string list) : string =
      | None -> "FUEL"
      | Some (res, w') -> Printf.sprintf "%s | %s" (match res with Ok _ -> "OK" | Err e -> str_rerr e) (hex_of_bytes w'.w_out))
   | "SB" :: m :: tape :: rest | "TM" :: m :: tape :: rest ->
+    (* `slow` only tells the harness to use a port whose transfers take real time *)
+    let rest = List.filter (fun x -> x <> "slow") rest in
     let (rs, ws) = split_at "/" rest in
     let p = { pt_in = { r_content = bytes_of_hex tape; r_sched = List.map rd_ev_of_str rs };
               pt_out = { w_out = []; w_sched = List.map wr_ev_of_str ws } } in
@@ -310,15 +326,15 @@ let handle_io (toks : string list) : string =
   | ["PT"; baud; cs; par; stop; flow; fail; ctor] ->
     let p = { sp_settings = { s_baud = baud_of_str baud; s_csize = csize_of_str cs; s_parity = parity_of_str par;
                               s_stop = stop_of_str stop; s_flow = flow_of_str flow };
-              sp_timeout = None; sp_fail = fail_of_str fail } in
+              sp_timeout = None; sp_fail = fail_of_str (List.hd (String.split_on_char ':' fail)) } in
     let r = match String.split_on_char '.' ctor with
-      | ["CFG"; ms] -> configure_port p (num ms)
+      | ["CFG"; secs; nanos] -> configure_port p (N.add (N.mul (num_big secs) (num "1000000000")) (num nanos))
       | ["BUS"] -> serial_bus_try_new p
       | ["ODK"] -> odk_try_new p
       | _ -> failwith "bad ctor" in
     (match r with
      | Ok p' -> Printf.sprintf "OK %s %s" (str_settings p'.sp_settings)
-                  (match p'.sp_timeout with None -> "-" | Some t -> pn t)
+                  (match p'.sp_timeout with None -> "-" | Some t -> pn_big t)
      | Err f -> "ER " ^ str_fail f)
   | _ -> "BADCASE"
 
